@@ -792,6 +792,8 @@ def unmarshal_array(ct, data, offset, lendian, oobFDs):
 
     while offset < end_offset:
 
+        element_offset = offset
+
         offset += len(pad[tcode](offset))
 
         nbytes, value = unmarshallers[tcode](
@@ -799,6 +801,11 @@ def unmarshal_array(ct, data, offset, lendian, oobFDs):
 
         offset += nbytes
         values.append(value)
+
+        if offset == element_offset:
+            # an element type that occupies no bytes would never reach
+            # the end of the array data
+            raise MarshallingError('Invalid array encoding')
 
     if not offset == end_offset:
         raise MarshallingError('Invalid array encoding')
